@@ -7,7 +7,7 @@ W=$1; LOG=$2; shift 2
 for id in "$@"; do
   P=${id:0:3}; D=/verif/seeded/$id
   cd $W || exit 2
-  git checkout -q -- .
+  git reset --hard -q
   if ! git apply $D/patch.diff 2>/dev/null; then echo "[$id] PATCH-DOES-NOT-APPLY" >> $LOG; continue; fi
   python3 - "$D/meta.json" "$id" >> $LOG <<'PY'
 import json, sys
@@ -19,6 +19,6 @@ PY
   echo "[$id] check $P rc=$rc $(echo "$out" | head -1 | cut -c1-150)" >> $LOG
   echo "[$id]    $(echo "$out" | grep -m1 VIOLATION)" >> $LOG
   echo "[$id] CONFIRMED -> $D (recheck $P:rc=$rc)" >> $LOG
-  git checkout -q -- .
+  git reset --hard -q
 done
 echo DONE >> $LOG
